@@ -63,6 +63,8 @@ def gram_passes(pid, tier):
             P.append(('NT2 T3 R<=3 W<=5, strings<=%d' % (3 if q else 4), base + ['--nt', '2', '--t', '3', '--err', '0', '--maxR', '3', '--maxlen', '3' if q else '4']))
         if pid == 'C11':
             P.append(('S/R grammars NT2 T2 R<=3 under every precedence/associativity assignment (both preferences)', base + ['--nt', '2', '--t', '2', '--err', '0', '--maxR', '3', '--maxlen', '0', '--with-prec', '--prec-levels', '2', '--rprec-max', '1']))
+        if pid in ('C09', 'C01'):
+            P.append(('NT2 T2 R<=3 W<=%d, inputs<=%d over terminals + space, newline and a foreign byte' % (4 if q else 5, 4 if q else 5), base + ['--nt', '2', '--t', '2', '--err', '0', '--maxR', '3', '--maxW', '4' if q else '5', '--maxlen', '4' if q else '5', '--rich']))
         P.append(('seed grammars (witnesses of repaired defects)', base + ['--maxlen', '4', '--max-per-frame', '0', '--seeds', os.path.join(VERIF, 'seeds', 'gram_seeds.txt')]))
         if not q:
             P.append(('NT3 T2 R<=4, strings<=4', base + ['--nt', '3', '--t', '2', '--err', '0', '--maxlen', '4']))
